@@ -136,7 +136,7 @@ func C19(tier string) int {
 		}
 	}
 	for _, c := range c02Cases(thorough) {
-		if len(c.fields) > 1 && !thorough {
+		if len(c.fields) == 2 && !thorough {
 			continue
 		}
 		cases = append(cases, cse{text: c.text, pred: c.pred, sortBy: c.sortBy, page: c.page, fields: c.fields, ids: 4})
@@ -179,6 +179,10 @@ func C19(tier string) int {
 					doms[f] = d
 				}
 				n := len(ids) * len(fields)
+				profiles := len(fields) >= 3
+				if profiles {
+					n = len(ids) // whole-row profiles, as in C02
+				}
 				idx := make([]int, n)
 				for !rep.TooMany() {
 					ds := newQDS()
@@ -188,7 +192,18 @@ func C19(tier string) int {
 						e := &rm.Ent{Id: id, F: map[string]rm.Val{}, Sets: map[string][]string{}, Fk: map[string]*string{}, Tags: map[string]rm.Val{}}
 						fmt.Fprintf(&lb, "%s{", id)
 						for fi, f := range fields {
-							e.F[f] = doms[f][idx[ei*len(fields)+fi]]
+							if profiles {
+								switch idx[ei] {
+								case 0:
+									e.F[f] = rm.Null
+								case 1:
+									e.F[f] = c02Domains[f][1]
+								default:
+									e.F[f] = c02Domains[f][1+fi%2]
+								}
+							} else {
+								e.F[f] = doms[f][idx[ei*len(fields)+fi]]
+							}
 							fmt.Fprintf(&lb, "%s=%s ", f, e.F[f])
 						}
 						lb.WriteString("} ")
@@ -250,9 +265,12 @@ func C19(tier string) int {
 					})
 					kk := n - 1
 					for kk >= 0 {
-						f := fields[kk%len(fields)]
+						limit := 3
+						if !profiles {
+							limit = len(doms[fields[kk%len(fields)]])
+						}
 						idx[kk]++
-						if idx[kk] < len(doms[f]) {
+						if idx[kk] < limit {
 							break
 						}
 						idx[kk] = 0
